@@ -1206,6 +1206,18 @@ def _check_enums(prog: Program, res: Result, wfi, lfi):
                 c = attr_chain(n.comparators[0]) if isinstance(n.comparators[0], ast.Attribute) else None
                 if c and c.startswith(enum + ".") and (c.count(".") == 1 or c.endswith((".name", ".value"))):
                     out.add(c.split(".")[1])
+            # ... or written as a membership test:  k in (E.A.name, E.B.name)  - the collection given in place or held in a local /
+            # module-level name that is bound once
+            if isinstance(n, ast.Compare) and len(n.ops) == 1 and isinstance(n.ops[0], (ast.In, ast.NotIn)):
+                coll = n.comparators[0]
+                if isinstance(coll, ast.Name):
+                    binds = [a_.value for a_ in ast.walk(fi.node) if isinstance(a_, ast.Assign) and len(a_.targets) == 1 and isinstance(a_.targets[0], ast.Name) and a_.targets[0].id == coll.id]
+                    coll = binds[0] if len(binds) == 1 else (mod_consts.get(coll.id) if not binds else None)
+                if isinstance(coll, (ast.Tuple, ast.List, ast.Set)):
+                    for e_ in coll.elts:
+                        c = attr_chain(e_) if isinstance(e_, ast.Attribute) else None
+                        if c and c.startswith(enum + ".") and (c.count(".") == 1 or c.endswith((".name", ".value"))):
+                            out.add(c.split(".")[1])
         return out
 
     def expect(rule_desc, members, got, where_fi, enum):
